@@ -59,6 +59,35 @@ def aux_after_base_import(ctx, chk, rid):
                    msg="a refused import must not leave a freshly created side region behind (new name, slot and extent)")
 
 
+def version_equality_test(ctx, chk, rid):
+    """shared by C14 and C19"""
+    O, P = ctx.O, ctx.P
+    # F6 the stored vec version is compared for (in)equality: an ordering test lets an import with a bumped own version
+    # succeed on old data
+    iv = O.body("vecdb::base::header::inner::HeaderInner::import_and_verify")
+    dv = [b for b in iv.reachable() for st in iv.blocks[b]["stmts"]
+          if st[0] == "assign" and st[2]["k"] == "agg" and st[2].get("variant") == "DifferentVersion"]
+    if not dv:
+        raise AnchorMissing("import_and_verify: no DifferentVersion construction")
+    import props.c17 as c17
+    eqs, ords = 0, 0
+    dom = iv.dominators()
+    for b in dv:
+        gs = c17.guards_of(ctx, iv, b)
+        # the nearest guard: the test whose outcome directly selects this refusal
+        for g in sorted(gs, key=lambda g_: len(dom[g_["block"]]))[-1:]:
+            if any(re.search(r"cmp::PartialEq(<.*>)?>?::(ne|eq)$", c) for c in g["calls"]) or g.get("binops", set()) & {"Ne", "Eq"}:
+                eqs += 1
+            if any(re.search(r"cmp::PartialOrd(<.*>)?>?::(lt|le|gt|ge)$|cmp::Ord>?::cmp$", c) for c in g["calls"]) \
+                    or g.get("binops", set()) & {"Lt", "Le", "Gt", "Ge"}:
+                ords += 1
+    chk.oblige("%s import_and_verify: every DifferentVersion refusal is guarded by an (in)equality test of the versions "
+               "[%d refusal(s), %d equality guards, %d ordering guards]" % (rid, len(dv), eqs, ords), eqs >= len(dv) and ords == 0,
+               key="%s|import_and_verify|version-ordering-test" % rid,
+               msg="a stored version that merely is not newer is accepted: results computed under an older own version "
+                   "are served under the new one")
+
+
 def run(ctx, chk):
     O, P = ctx.O, ctx.P
     import props.anchors as anchors
@@ -83,30 +112,7 @@ def run(ctx, chk):
                    % (kind, len(ms), len(xs)), bool(ms) and not bad, key="F3c|%s|aux-removed-before-data" % kind,
                    msg="removing the data region can be refused (RegionStillReferenced while a read-only clone lives); "
                        "side regions discarded before that are lost although the reset reported an error")
-    # F6 the stored vec version is compared for (in)equality: an ordering test lets an import with a bumped own version
-    # succeed on old data
-    iv = O.body("vecdb::base::header::inner::HeaderInner::import_and_verify")
-    dv = [b for b in iv.reachable() for st in iv.blocks[b]["stmts"]
-          if st[0] == "assign" and st[2]["k"] == "agg" and st[2].get("variant") == "DifferentVersion"]
-    if not dv:
-        raise AnchorMissing("import_and_verify: no DifferentVersion construction")
-    import props.c17 as c17
-    eqs, ords = 0, 0
-    dom = iv.dominators()
-    for b in dv:
-        gs = c17.guards_of(ctx, iv, b)
-        # the nearest guard: the test whose outcome directly selects this refusal
-        for g in sorted(gs, key=lambda g_: len(dom[g_["block"]]))[-1:]:
-            if any(re.search(r"cmp::PartialEq(<.*>)?>?::(ne|eq)$", c) for c in g["calls"]) or g.get("binops", set()) & {"Ne", "Eq"}:
-                eqs += 1
-            if any(re.search(r"cmp::PartialOrd(<.*>)?>?::(lt|le|gt|ge)$|cmp::Ord>?::cmp$", c) for c in g["calls"]) \
-                    or g.get("binops", set()) & {"Lt", "Le", "Gt", "Ge"}:
-                ords += 1
-    chk.oblige("F6 import_and_verify: every DifferentVersion refusal is guarded by an (in)equality test of the versions "
-               "[%d refusal(s), %d equality guards, %d ordering guards]" % (len(dv), eqs, ords), eqs >= len(dv) and ords == 0,
-               key="F6|import_and_verify|version-ordering-test",
-               msg="a stored version that merely is not newer is accepted: results computed under an older own version "
-                   "are served under the new one")
+    version_equality_test(ctx, chk, "F6")
     verr = [v["name"] for v in P.adts["vecdb::error::Error"]["variants"]]
     arms = {}
     for kind, pre in (("raw", RAW), ("compressed", CMP)):
